@@ -183,11 +183,16 @@ func (st *State) intrinsic(g *G, fr *Frame, name string, fn *ssa.Function, args 
 	case "SetTimers":
 		st.timersOn = args[0].(*Term).IsTrue()
 		return nil, false
-	case "RunSpawned", "RunSpawnedExcept", "RunImmediate":
+	case "SetTimerLimit":
+		if t := args[0].(*Term); t.Const {
+			st.timerLimit = signed(64, t.U)
+		}
+		return nil, false
+	case "RunSpawned", "RunSpawnedExcept", "RunImmediate", "RunAll":
 		// RunImmediate: every parked goroutine runs (name independent); with timers switched off the ones that sleep
 		// first block at their time.After and continue when the harness lets that much time pass (FireTimersUpTo)
 		match, except := "\x00no-such-goroutine", true
-		if base != "RunImmediate" {
+		if base != "RunImmediate" && base != "RunAll" {
 			match = constStr(args[0])
 			except = base == "RunSpawnedExcept"
 		}
